@@ -73,6 +73,21 @@ def import_ampycloud():
     return ampycloud
 
 
+def packaged_defaults():
+    """The packaged default parameters, parsed here from the file in the tree under test (ruamel, YAML 1.2, safe) -
+    independently of `dynamic.get_default_prms()`, whose answer is part of what the checks judge."""
+    import copy
+    global _PACKAGED
+    try:
+        return copy.deepcopy(_PACKAGED)
+    except NameError:
+        pass
+    from ruamel.yaml import YAML
+    f = REPO / 'src' / 'ampycloud' / 'prms' / 'ampycloud_default_prms.yml'
+    _PACKAGED = YAML(typ='safe').load(f)
+    return copy.deepcopy(_PACKAGED)
+
+
 class _Sink:
     """A logging handler that formats every record (so that lazy argument formatting really runs) and drops it."""
 
